@@ -178,7 +178,7 @@ class RawPacketTransmitter(Elaboratable):
 
                     # If we just sent a data packet header, and we have a valid data-stream,
                     # or if we're sending a ZLP, follow on immediately with a Data Packet Payload.
-                    was_data_header = (header.dw0[ 0: 4] == HeaderPacketType.DATA)
+                    was_data_header = (header.dw0[ 0: 5] == HeaderPacketType.DATA)
                     with m.If(was_data_header):
                         m.d.ss += packet_is_zlp.eq(self.data_sink.valid == 0)
                         m.next = "START_DPP"
